@@ -20,7 +20,25 @@ import (
 // are made per property, in different functions. The forcing decision may therefore depend on an
 // attribute of the property only if the emitting decision depends on it too; any further condition
 // on the forcing side opens a class of properties for which a static block is emitted unguarded.
-func propertyFieldsOf(v ssa.Value, into map[string]bool) {
+// sliceCond slices a branch condition; a condition that go/ssa materialised as a phi of a
+// short-circuit expression is expanded into the conditions of the branches that feed the phi.
+func sliceCond(cond ssa.Value, visit func(ssa.Value) bool) {
+	var vals []ssa.Value
+	condsOfBoolValue(cond, &vals, 0)
+	for _, v := range vals {
+		backSlice(v, visit)
+	}
+}
+
+func propertyFieldsOf(v0 ssa.Value, into map[string]bool) {
+	var vals []ssa.Value
+	condsOfBoolValue(v0, &vals, 0)
+	for _, v := range vals {
+		propertyFieldsOf1(v, into)
+	}
+}
+
+func propertyFieldsOf1(v ssa.Value, into map[string]bool) {
 	deepSlice(v, func(x ssa.Value) bool {
 		switch y := x.(type) {
 		case *ssa.FieldAddr:
@@ -116,7 +134,7 @@ func c14StaticBlockAssignGate(p *Prog) *RuleResult {
 		ifs := controlDepIfsTransitive(b)
 		gated, assign := false, false
 		for _, ifi := range ifs {
-			backSlice(ifi.Cond, func(v ssa.Value) bool {
+			sliceCond(ifi.Cond, func(v ssa.Value) bool {
 				if c, ok := v.(*ssa.Call); ok && strings.HasSuffix(calleeFullName(c), "compat.JSFeature).Has") && len(c.Call.Args) == 2 {
 					if k, ok := constInt(c.Call.Args[1]); ok && k == feature {
 						gated = true
@@ -235,7 +253,7 @@ func c04GlobWildcardPretest(p *Prog) *RuleResult {
 		}
 		excluded := map[int64]bool{}
 		for _, ifi := range controlDepIfs(b) {
-			backSlice(ifi.Cond, func(v ssa.Value) bool {
+			sliceCond(ifi.Cond, func(v ssa.Value) bool {
 				if call, ok := v.(*ssa.Call); ok && strings.HasPrefix(calleeFullName(call), "strings.") {
 					for _, a := range call.Call.Args[1:] {
 						if s, ok := constString(a); ok {
